@@ -216,6 +216,8 @@ def realign_gaf(gaf, graph, fasta, output, cores=1):
                                 "One of the processes had a none-zero exit code. One reason could be that one of the processes consumed too much memory and was killed"
                             )
                             sys.exit(1)
+                        # all processes exited cleanly, their remaining results are still in the queue
+                        continue
                 if out_string_obj is None:  # sentinel counter to count finished processes
                     n_sentinels += 1
                 else:  # priority queue to keep the output order same as input order
@@ -260,6 +262,8 @@ def realign_gaf(gaf, graph, fasta, output, cores=1):
                     if not all_exited(processes):
                         logger.error("One of the processes had a none-zero exit code")
                         sys.exit(1)
+                    # all processes exited cleanly, their remaining results are still in the queue
+                    continue
             if out_string_obj is None:
                 n_sentinels += 1
             else:
